@@ -19,7 +19,7 @@ rsync -a --exclude .git /repo/ $T/repo/
 ( cd $T/repo && patch -s -p1 < $O/patch.diff ) || { echo "patch does not apply to /repo"; rm -rf $T; exit 2; }
 ROOT=$(git -C /repo rev-list --max-parents=0 HEAD | tail -1)
 for f in analysis/sql/test/crud_gen.go generator/dart/test/predefined.dart generator/dart/test/testsource.dart generator/dart/test/testsource_subpackage.dart generator/go/gounions/test/gen.go generator/go/randdata/test/data.go generator/sql/test/create.sql generator/typescript/test/gen.ts; do git -C /repo show "$ROOT:$f" > "$T/repo/$f"; done
-( cd $T/repo && go build ./... ) > $O/confirm_build.txt 2>&1; build=$?
+( cd $T/repo && go build $(go list ./... | grep -v httpapi/test$) ) > $O/confirm_build.txt 2>&1; build=$?
 ( cd $T/repo && go test -json -vet=off -count=1 -timeout 25m ./... ) > $T/test.json 2>/dev/null
 python3 - "$T/test.json" "$O/confirm.json" "$with" "$without" "$build" <<'PY'
 import json,sys
